@@ -49,7 +49,9 @@ func c04(c *Ctx) {
 		"the sticky decoder error after the inner Pop*s is never consulted: with the length bound in place it cannot cause acceptance (recorded as an assumption)"}
 	r.Rule("R04.G", "acceptance guards: key id, msg_key over decrypted[0:32+len], msg_id parity {1,3} (encrypted, plain, transport), exact length of plain packets, errors propagated", 8)
 	r.Rule("R04.B", "every allocation / slice sized by packet data is bounded on all reachable grid points (negative, oversized, truncated)", 3)
+	r.Rule("R04.E", "every exit of the three readers that returns no message returns a certainly non-nil error", 12)
 	tr := an.NewTracer()
+	c04Refusals(c)
 
 	f := c.fn("R04.G", load.MsgPkg, "", "DeserializeEncrypted")
 	if f != nil {
@@ -208,6 +210,32 @@ func c04(c *Ctx) {
 				ok := len(a) == 2 && strings.Contains(tr.OriginString(a[1]), "GetAuthKey")
 				r.Check(ok, "R04.G", "transport:session-key", c.pos(cs.Pos()), "DeserializeEncrypted is given the session's auth key: "+tr.OriginString(a[1]))
 			}
+		}
+	}
+}
+
+// c04Refusals: R04.E — an exit that hands back no message must hand back an error (a refusal that returns
+// (nil, nil) is read by the caller as "accepted" and the nil message is dereferenced).
+func c04Refusals(c *Ctx) {
+	r := c.R
+	for _, t := range []struct{ pkg, recv, name string }{{load.MsgPkg, "", "DeserializeEncrypted"}, {load.MsgPkg, "", "DeserializeUnencrypted"}, {load.TransPkg, "*transport", "ReadMsg"}} {
+		f := c.fn("R04.E", t.pkg, t.recv, t.name)
+		if f == nil {
+			continue
+		}
+		n := 0
+		for _, b := range f.Blocks {
+			ret, ok := b.Instrs[len(b.Instrs)-1].(*ssa.Return)
+			if !ok || len(ret.Results) != 2 || !an.IsNilConst(ret.Results[0]) {
+				continue
+			}
+			n++
+			key := sprintf("refusal:%s#%d", t.name, n)
+			r.Check(an.NonNilError(ret.Results[1], b), "R04.E", key, c.pos(ret.Pos()),
+				"exit without a message: the error returned with it is certainly non-nil (fresh error, wrapper of a tested error, or the tested error itself)")
+		}
+		if n == 0 {
+			r.Undecide("R04.E", "refusal:"+t.name, c.pos(f.Pos()), "no refusing exit found")
 		}
 	}
 }
